@@ -1,8 +1,9 @@
 /-
-  Rust run-time semantics made explicit (hand-written, import-free):
+  Rust run-time semantics made explicit (hand-written; imports only the attribute registration `Prelude/Attr.lean`):
   panics (index out of bounds, slice range, usize overflow with overflow checks,
   `unwrap` on `Err`, `vec!` capacity overflow) are `none` / `Res.panic`.
 -/
+import TaRs.Prelude.Attr
 import TaRs.Prelude.Scalar
 namespace TaRs
 
